@@ -95,6 +95,7 @@ var (
 	overlayF = flag.String("overlay", "", "JSON file {path: replacement file} applied when loading (self-test mutants)")
 	replayDirF = flag.String("replaydir", "", "directory for replay files (default <verif>/replay/<prop>)")
 	par      = flag.Int("par", 16, "solver processes in parallel")
+	loopNamesF = flag.Bool("loopnames", false, "record the loop-variable names of the functions under contract in <verif>/loopnames.json and exit")
 )
 
 func main() {
@@ -181,6 +182,24 @@ func run() int {
 	}
 	loadS := time.Since(tLoad).Seconds()
 	eng.OverlayFiles = overlayFiles
+	lnPath := filepath.Join(*verifDir, "loopnames.json")
+	if *loopNamesF {
+		// record the names of the loop variables under contract on this tree (merged into loopnames.json)
+		all := vc.LoopNames{}
+		if b, err := os.ReadFile(lnPath); err == nil {
+			json.Unmarshal(b, &all)
+		}
+		for k, v := range eng.CurrentLoopNames() {
+			all[k] = v
+		}
+		jb, _ := json.MarshalIndent(all, "", " ")
+		if err := os.WriteFile(lnPath, append(jb, '\n'), 0o644); err != nil {
+			return fatal("%v", err)
+		}
+		fmt.Printf("loopnames: %d functions recorded in %s\n", len(all), lnPath)
+		return 0
+	}
+	eng.LoadLoopNames(lnPath)
 
 	// generate
 	tGen := time.Now()
